@@ -11,7 +11,7 @@ BASELINE = ("cd /repo && (cargo nextest run --workspace --no-fail-fast --tool-co
 CHECKS = {
  "C20": ("mc-reg", "model_checking",
          "exhaustive enumeration of key lists x download completion orders on the real resolver against an in-process Warg registry, completion order enforced through guarded per-task gates (controlled scheduler)",
-         "An in-process Warg server holds test:a {1.0.0, 1.1.0, 2.0.0}, test:b {0.1.0}, test:c {1.0.0} with distinct content per release (100 B .. 200 KiB). For every ordered list of distinct keys of length 1-2 (quick: plus an eighth of the all-existing length-3 lists that repeat the name test:a and every length-3 list of two existing keys sharing a name followed by a failing key; thorough: all length-3 lists) over a 9-key universe (versioned and unversioned references to one package, a missing version, a missing package) and EVERY permutation of download completion order, the real RegistryPackageResolver runs over the real HTTP stack while the H2 gates release one download at a time in the chosen order (the consumed order is confirmed from the resolver's progress callbacks); plus one free-running execution per list. The result must have exactly the requested keys, each with the content published under that name and version (latest when unversioned); a missing package/version must be reported with the corresponding error naming the key and carrying that key's span; the result must be the same for every completion order.",
+         "An in-process Warg server holds test:a {1.0.0, 1.1.0, 2.0.0}, test:b {0.1.0}, test:c {1.0.0} with distinct content per release (100 B .. 200 KiB). For every ordered list of distinct keys of length 1-2 (quick: plus an eighth of the all-existing length-3 lists that repeat the name test:a and every length-3 list of two existing keys sharing a name followed by a failing key; thorough: all length-3 lists) over a 9-key universe (versioned and unversioned references to one package, a missing version, a missing package) and EVERY permutation of download completion order, the real RegistryPackageResolver runs over the real HTTP stack while the H2 gates release one download at a time in the chosen order (the consumed order is confirmed from the resolver's progress callbacks); plus one free-running execution per list. The result must have exactly the requested keys, each with the content published under that name and version (latest when unversioned); a missing package/version must be reported with the corresponding error naming the key and carrying that key's span; the result must be the same for every completion order. Histories start from non-initial client state: resolve(first keys), a further release is published, resolve(second keys) on the same client storage, for every ordered list of 1-2 keys among {unversioned, old release, new release} and every completion order; every key must get the release it names, the unversioned key the latest release at that time.",
          "The only schedule-dependent observable of resolve() is the order in which finished downloads are consumed; that order is enumerated exhaustively per list. Scheduling inside the HTTP client/server is not enumerated; overlapping downloads are exercised only by the free-running executions.",
          "DESIGN.md §5 C20, §4 E7"),
  "C04": ("mc-sem", "translation_validation",
